@@ -351,6 +351,15 @@ def pureOp (f : List String) : String :=
         | .err t => (if t.startsWith "parse:" then "err:p" else "err:v") ++ " #" ++ t
         | .panic _ => "panic")
      | none => "bad-op")
+  | ["parsel", m] =>
+    -- the same memo through the parser a node keeps for its whole life: parsing is a function of the memo
+    (match unhxB m with
+     | some memo =>
+       (match parsePayload .bpsLast memo with
+        | .ok p => "ok:" ++ canonPayload p
+        | .err t => (if t.startsWith "parse:" then "err:p" else "err:v") ++ " #" ++ t
+        | .panic _ => "panic")
+     | none => "bad-op")
   | ["parse2", m] =>
     -- the same memo under the other oneof order (C15/C19: must agree)
     (match unhxB m with
